@@ -269,6 +269,14 @@ func limitsReplay(raw json.RawMessage) hx.Result {
 			if got := classify(err); got != r.Want {
 				return fail(got, err, "NewEventFromUntrustedJSON of "+in.via)
 			}
+			if ev != nil && ev.Redacted() && r.Hash == "match" && strings.HasPrefix(in.via, "JSON made by EventBuilder.Build") {
+				// not a fault of the concretiser: the library does not accept its own product as it is
+				// ("events built for a room version have that version's format")
+				return hx.Result{OK: false, NT: nt, Want: "accepted as built", Got: "redacted",
+					Key: "C17/limits/built-event-on-receipt/ver=" + r.Ver + "/model=unredacted,code=redacted",
+					What: fmt.Sprintf("room version %s: the event made by EventBuilder.Build is redacted by NewEventFromUntrustedJSON "+
+						"(its content hash does not cover the JSON it was built with): %s", r.Ver, r.Desc)}
+			}
 			if ev != nil && ev.Redacted() != (r.Hash != "match") {
 				fatalf("concretiser: %s of version %s, hash=%s: the library says redacted=%v", in.via, r.Ver, r.Hash, ev.Redacted())
 			}
